@@ -125,6 +125,36 @@ pub fn programs(tier: Tier) -> ProgramSet {
             }
         }
     }
+    // SCALE: one variant with many properties of every type; many variants with individual properties
+    {
+        let mut spec = EnumSpec::base(0);
+        let mut big = VariantSpec::unit("Big");
+        let mut g: Vec<(String, PropLit)> = Vec::new();
+        for i in 0..24usize {
+            let lit = match i % 3 {
+                0 => PropLit::S(format!("v{}", i)),
+                1 => PropLit::I(i as i64 * 1000 - 5000),
+                _ => PropLit::B(i % 2 == 0),
+            };
+            g.push((format!("k{}", i), lit));
+        }
+        big.props = vec![g[..10].to_vec(), g[10..11].to_vec(), g[11..].to_vec()];
+        spec.variants.push(big);
+        for i in 0..30usize {
+            let mut v = VariantSpec::unit(&format!("P{}", i));
+            if i % 4 != 3 {
+                v.props = vec![vec![(format!("k{}", i % 5), PropLit::S(format!("p{}", i))), ("n".to_string(), PropLit::I(i as i64)), (format!("b{}", i % 2), PropLit::B(i % 3 == 0))]];
+            }
+            if i % 9 == 8 {
+                v.disabled = true;
+            }
+            spec.variants.push(v);
+        }
+        if domain(&spec) {
+            let source = render(&spec);
+            out.push(Program { idx: 0, label: "SCALE: 24 properties on one variant (3 attribute groups), 30 more variants".into(), k: 1, spec, aux: json!(null), source });
+        }
+    }
     let mut ex = std::collections::BTreeMap::new();
     ex.insert("duplicate (variant, key, type)".to_string(), excluded);
     ProgramSet { programs: finish(out), excluded: ex, bounds: json!({"plan_(N,k)": plan, "group_pool": groups(tier).len(), "groups_per_variant_max": 3, "query_strings": "declared keys, case variants, prefixes, all strings <= 2 over {a,b,A,B,t,f,n,y}, \"\""}) }
